@@ -149,12 +149,19 @@ for k, v in ADD5.items():
 # additions of the sixth session
 ADD6 = {
  "C07": " The reader handed to extract() serves short reads and reports ErrorKind::Interrupted before every n-th read (only where no entry is abandoned half-read): a safe archive must still extract completely.",
- "C09": " apis: after the scheduled plain reads the caller finishes each entry through another Read entry point (read_to_end, read_exact(size)+read_to_end, io::copy, read_vectored, bytes(), read_to_string) x chunk schedules x schedules on which the underlying reader reports ErrorKind::Interrupted before every n-th read (the caller retries, as the Read contract asks) x every seed archive, seekable and (fully consumed) streaming; the random tier draws API and interrupt schedule as well.",
+ "C09": " A zero-length read may precede the abandoning of a partly read streamed entry. apis: after the scheduled plain reads the caller finishes each entry through another Read entry point (read_to_end, read_exact(size)+read_to_end, io::copy, read_vectored, bytes(), read_to_string) x chunk schedules x schedules on which the underlying reader reports ErrorKind::Interrupted before every n-th read (the caller retries, as the Read contract asks) x every seed archive, seekable and (fully consumed) streaming; the random tier draws API and interrupt schedule as well.",
  "C10": " damaged: one byte of one entry's data (4 methods, 1 B..300 KB) is altered; the stream must list the same entries as the seekable reader over the same bytes and deliver every entry the seekable reader delivers - in particular those behind the damaged one - whether the consumer reads the damaged entry to its error, half of it, or skips it.",
- "C11": " Half of the writer scenarios use a caller that issues EVERY call of an operation whatever the earlier ones returned (write after a refused start_file, end_extra_data after a failed write) and calls flush() after each operation; writers_methods: every method x every kind of following operation under both callers; writers_far: a run whose sink starts beyond 4 GiB (ZIP64 end record + locator are written) with EVERY I/O call failed in turn. A call that never returns is left out by the stall monitor and ends the check inconclusive (exit 2) unless other cases show a violation.",
+ "C11": " Reader scenarios with a nested archive keep an archive comment; the streaming reader is swept once more with a consumer that skips every entry (a panic of the drop-time drain is accepted there, a clean end with a different entry list is not); long runs (> 3000 I/O calls) are swept at the first/last 1200 call indices and 600 evenly spaced ones. Half of the writer scenarios use a caller that issues EVERY call of an operation whatever the earlier ones returned (write after a refused start_file, end_extra_data after a failed write) and calls flush() after each operation; writers_methods: every method x every kind of following operation under both callers; writers_far: a run whose sink starts beyond 4 GiB (ZIP64 end record + locator are written) with EVERY I/O call failed in turn. A call that never returns is left out by the stall monitor and ends the check inconclusive (exit 2) unless other cases show a violation.",
  "C13": " long_text_bases: reference-built bases with a 300..65535-byte name and/or file comment of CP437 high bytes, invalid UTF-8 under the language flag or valid UTF-8 (text that grows when re-encoded): a refusal is accepted when the text no longer fits 16 bits, a reported success must be a valid archive holding every old entry.",
  "C17": " A third of the extra-data cases first deliver the last buffer only up to a cut inside a record, get end_extra_data()'s refusal, deliver the rest and continue: placement (local part only in the local header, central part only in the central record) and the announced data start must be as for an undisturbed sequence.",
- "C20": " faulty_sibling fails with kinds Other / UnexpectedEof / InvalidData / TimedOut or a panic; scripts also open ZipCrypto entries with a WRONG password found (by search with the independent cipher) to pass the one-byte header check; mode_pairs: for every entry of a fixed archive (plain / ZipCrypto x stored / deflated) every pair of ways to open it on two clones, each reading to the end, all interleavings.",
+ "C02": " Extra-data and aligned entries may carry the ZipCrypto option; in the reject domain the caller still writes the data of an entry whose extra data was refused (compressing method every other length).",
+ "C03": " Method-93 entries of the foreign generator may consist of several concatenated Zstandard frames.",
+ "C04": " size_lies: entries whose data decodes to more bytes than they declare while the declared CRC is that of the declared prefix, read with call boundaries exactly at the declared size and through read_exact(size)+read_to_end.",
+ "C06": " special_names also holds ordinary components that only look like '.' / '..' (trailing / leading blanks, more dots, TAB, NBSP) in every position.",
+ "C12": " The option domain of every entry-creating call includes the ZipCrypto password (start_file_with_extra_data + password is a letter of the exhaustive alphabet).",
+ "C15": " The encrypted entry is also started through start_file_aligned and start_file_with_extra_data (shared / split extra data).",
+ "C18": " Calendar values also carry sub-second parts (1 ns, 0.5 s, 999999999 ns): accepted exactly when the plain second is.",
+ "C20": " faulty_sibling fails with kinds Other / UnexpectedEof / InvalidData / TimedOut or a panic, and every other round the healthy clone holds the entry open across the victim's step (data_start and content must stay what a handle used alone sees); scripts also open ZipCrypto entries with a WRONG password found (by search with the independent cipher) to pass the one-byte header check; mode_pairs: for every entry of a fixed archive (plain / ZipCrypto x stored / deflated) every pair of ways to open it on two clones, each reading to the end, all interleavings.",
 }
 for k, v in ADD6.items():
     c = CHECKS[k]
